@@ -12,7 +12,7 @@ pub struct Utf8Accum {
 
 impl Default for Utf8Accum {
     fn default() -> Self {
-//@ ensures r.wf(), r.pending() == Seq::<u8>::empty(),  // [C02,C17,C04]
+//@ ensures r.wf(), r.pending() == Seq::<u8>::empty(),  // [C02,C17,~C04]
         Utf8Accum { buffer: [0; 4], expected: 0, partial: 0 }
     }
 }
